@@ -265,7 +265,10 @@ class FSAssetSource:
 
     def get_path(self, resource_name):
         if resource_name:
-            path = os.path.join(self.prefix, resource_name)
+            # resource names are relative to the source directory: a name
+            # that begins with a slash must not make os.path.join discard
+            # the prefix
+            path = os.path.join(self.prefix, resource_name.lstrip('/'))
         else:
             path = self.prefix
         return path
